@@ -908,6 +908,14 @@ class BlockBase(Base):
                 and hasattr(start_stmt, "get_name")
             ):
                 if end_stmt.get_name() is not None:
+                    if start_stmt.get_name() is None:
+                        if table_name:
+                            SYMBOL_TABLES.remove(table_name)
+                        raise FortranSyntaxError(
+                            reader,
+                            f"Name '{end_stmt.get_name()}' has no corresponding "
+                            f"starting name",
+                        )
                     if (
                         start_stmt.get_name().string.lower()
                         != end_stmt.get_name().string.lower()
